@@ -81,6 +81,40 @@ def az_jobs(rng, quick):
     return jobs
 
 
+AZ_SIZES = sorted([(11 + 4 * L, -L) for L in range(1, 5)] + [(14 + 4 * L + 1 + 2 * (((14 + 4 * L) // 2 - 1) // 15), L) for L in range(1, 33)])
+
+
+def az_sweep(chk, drive, rng, quick):
+    """Adaptive boundary search. Phase 1 asks the real encoder (no pixels) which size it chooses automatically for every payload length of a
+    few (alphabet, percentage) combinations. Returns [(alphabet, pct, [(n, width or None)])] - used by C03 (the first lengths after every
+    size transition, where the stuffed stream decided and where the codeword size may change, are then read back in full) and by C13."""
+    combos = [(b"ABCDEFGHIJKLMNOPQRSTUVWXYZ", 33), (b"0123456789", 23), (bytes(range(128, 160)), 50)]
+    if not quick:
+        combos += [(b"abc xyz, 12. AB", 33), (b"ABCDEFGH", 10), (b"A", 50), (b"5", 33), (b"\x80", 50), (b"abcdefghij", 90), (b"ABCDEFGHIJKLMNOPQRSTUVWXYZ", 30)]
+    out = []
+    for (alpha, pct) in combos:
+        maxn = 700 if quick else 3100
+        text = bytes(rng.choice(alpha) for _ in range(maxn))
+        jobs = [gen.enc("aztec", list(text[:n]), (pct, 0), proj="outcome") for n in range(1, maxn + 1)]
+        evs = vlib.run_drive(drive, jobs, chk.work, name="azsweep")
+        out.append((text, pct, [(n + 1, (e["res"].get("w") if e["res"]["kind"] == "ok" else None)) for n, e in enumerate(evs)]))
+    return out
+
+
+def transition_jobs(sweep, quick):
+    jobs = []
+    for (text, pct, widths) in sweep:
+        prev = None
+        for (n, w) in widths:
+            if w is not None and prev is not None and w != prev:
+                for d in ((0, 1) if quick else (-1, 0, 1, 2)):
+                    if 1 <= n + d <= len(text):
+                        jobs.append(gen.enc("aztec", list(text[:n + d]), (pct, 0)))
+            if w is not None:
+                prev = w
+    return jobs
+
+
 def wanted(ev, tag):
     return ev.get("sym") == "aztec" and (onedim.is_roundtrip(tag) or tag == "layers-not-honoured")
 
@@ -113,6 +147,11 @@ def run(tier):
                    dict(module="MC_AztecHL.tla", cfg="MC_AztecHL_nofix.cfg", workers=2, timeout=1000, expect_violation="RoundTrip")])
     drive = vlib.build_harness(chk.work)
     jobs = az_jobs(chk.rng, quick)
+    # adaptive boundary search: the first payload lengths after every automatic size transition (the codeword size changes at three of them)
+    sweep = az_sweep(chk, drive, chk.rng, quick)
+    tj = transition_jobs(sweep, quick)
+    chk.cov["size_transitions_probed"] = len(tj)
+    jobs += tj
     # encoder-model conformance (see tools/encconf.py): strings of MC_AztecHL's state space where the real state search left the model
     wrong, drift = encconf.conformance(chk, "aztec", quick)
     for k, c in enumerate(wrong + drift):
